@@ -728,7 +728,6 @@ func c11Scenarios(tier string) []*SeqScenario {
 	return scs
 }
 
-func recoverC10(sc *CrashScenario, img vos.Image, info crashInfo, c *Collector) *Violation { return nil }
 
 // ---- C09: re-bucketing on reopen ----
 
@@ -954,6 +953,226 @@ func c09CrashScenarios(tier string) []*CrashScenario {
 			scs = append(scs, &CrashScenario{Prop: "C09", Name: fmt.Sprintf("c09x/%d->%d", pr[0], b2), Cfg: cc, Preamble: pre,
 				Alphabet: []Op{{Kind: OpRebits, A: int(b2)}}, Depth: 1, Recover: recoverC09, Oracles: []string{"crash"},
 				Allow: func(hist []Op) bool { return true }})
+		}
+	}
+	return scs
+}
+
+
+// ---- C10: legacy single-file stores ----
+
+// legacyStore builds a legacy-format store (version-2 single-file index with
+// its 6-byte header, unversioned single-file primary, legacy freelist) from a
+// history: the history is run on a current store with file-size limits so
+// large that everything stays in file 0 — record formats and offsets of file 0
+// are exactly the legacy ones — and the files are then re-labelled. cut > 0
+// removes that many bytes from the end of the primary (entries whose data no
+// longer exists).
+type legacyStore struct {
+	img   vos.Image
+	model map[string][]byte
+	keys  []Key
+	probe []Key
+	lost  map[string]bool // keys whose primary record was cut off
+}
+
+func buildLegacy(bits uint8, hist []Op, cut int, withFreelist bool) (*legacyStore, error) {
+	w, err := NewWorld(cfg("mh", false, bits, bigFile, bigFile))
+	if err != nil {
+		return nil, err
+	}
+	for _, op := range hist {
+		if v := w.Step(op); v != nil {
+			w.Close()
+			return nil, fmt.Errorf("legacy generator history failed: %s", v.Detail)
+		}
+	}
+	locs := w.locateAll()
+	if err := w.Close(); err != nil {
+		return nil, err
+	}
+	idx0, _ := w.FS.ReadFileRaw(idxPath + ".0")
+	dat0, _ := w.FS.ReadFileRaw(dataPath + ".0")
+	free, _ := w.FS.ReadFileRaw(idxPath + ".free")
+	ls := &legacyStore{model: copyModel(w.Model), keys: w.Keys, probe: w.Probes, lost: map[string]bool{}}
+	if cut > 0 && cut < len(dat0) {
+		dat0 = dat0[:len(dat0)-cut]
+		for d, b := range locs {
+			if int(b.Offset)+4+int(b.Size) > len(dat0) {
+				ls.lost[d] = true
+				delete(ls.model, d)
+			}
+		}
+	}
+	fs := vos.NewMemFS()
+	fs.MkdirRaw("/s")
+	fs.WriteFileRaw(idxPath, append([]byte{2, 0, 0, 0, 2, bits}, idx0...))
+	fs.WriteFileRaw(dataPath, dat0)
+	if withFreelist {
+		fs.WriteFileRaw(idxPath+".free", free)
+	}
+	ls.img = fs.Image()
+	return ls, nil
+}
+
+func legacyHistories(tier string) [][]Op {
+	hs := [][]Op{
+		{P(0, 1), P(1, 1), P(4, 1), opF},
+		{P(0, 1), P(1, 2), opF, P(0, 2), P(3, 1), opF, R(1), opF},
+		{P(0, 5), P(1, 1), opF, P(0, 1), P(2, 2), P(4, 5), opF, P(4, 1), opF},
+		{P(0, 1), opF},
+		{},
+	}
+	if tier != "quick" {
+		hs = append(hs,
+			[]Op{P(0, 1), P(1, 1), P(2, 1), P(3, 1), P(4, 1), opF, R(0), R(2), opF, P(0, 2), opF},
+			[]Op{P(4, 5), P(0, 5), opF, P(4, 2), P(0, 2), opF, P(4, 5), opF},
+		)
+	}
+	return hs
+}
+
+func c10Check(w *World, want map[string][]byte) *Violation {
+	w.Model = copyModel(want)
+	if v := w.Reads(); v != nil {
+		return v
+	}
+	if v := w.Iterate(); v != nil {
+		return v
+	}
+	return nil
+}
+
+func runC10Seq(c *Collector) {
+	sizes := []uint32{1, 40, 64, bigFile}
+	cuts := []int{0, 3}
+	unit := 0
+	for hi, hist := range legacyHistories(c.job.Tier) {
+		for _, cut := range cuts {
+			for _, withFL := range []bool{true, false} {
+				for _, ifs := range sizes {
+					for _, pfs := range sizes {
+						unit++
+						if unit%c.job.NShards != c.job.Shard {
+							continue
+						}
+						if c.job.Tier == "quick" && ifs != pfs && (hi+int(ifs)+int(pfs))%3 != 0 {
+							continue
+						}
+						c.res.Evaluations++
+						ls, err := buildLegacy(8, hist, cut, withFL)
+						if err != nil {
+							continue
+						}
+						report := func(v *Violation) {
+							v.Property = "C10"
+							v.Config = fmt.Sprintf("index file size %d, primary file size %d, freelist=%v, cut=%d", ifs, pfs, withFL, cut)
+							v.History = "legacy store from [" + opsString(hist) + "]; OpenStore"
+							v.Replay = map[string]any{"engine": "S-legacy", "hist": hist, "cut": cut, "freelist": withFL, "ifs": ifs, "pfs": pfs}
+							c.violation(v, len(hist))
+						}
+						w := &World{Cfg: cfg("mh", false, 8, ifs, pfs), FS: vos.FromImage(ls.img), Model: map[string][]byte{}, GCInt: 1000 * 3600e9, Sync: 1000 * 3600e9, Keys: ls.keys, Probes: ls.probe}
+						setMapOrder(w.Cfg)
+						func() {
+							defer func() {
+								if r := recover(); r != nil {
+									report(viol("panic", "panic: %v", r))
+									w.opened = false
+								}
+							}()
+							c.res.Transitions++
+							if err := w.Open(); err != nil {
+								report(viol("open-error", "upgrade open: %v", err))
+								return
+							}
+							if v := c10Check(w, ls.model); v != nil {
+								v.Detail = "after the upgrade: " + v.Detail
+								report(v)
+								return
+							}
+							for _, op := range []Op{P(2, 3), R(0), P(1, 2), opF, {Kind: OpReads}, {Kind: OpPriGC, A: 50}, {Kind: OpIdxGC, B: true}, {Kind: OpReads}, {Kind: OpReopen, A: 1}, {Kind: OpReads}} {
+								c.res.Transitions++
+								if v := w.Step(op); v != nil {
+									v.Detail = fmt.Sprintf("continuation after the upgrade (%s): %s", op, v.Detail)
+									report(v)
+									return
+								}
+							}
+							if len(ls.model) >= 2 {
+								c.count("nontrivial", 1)
+							}
+							c.state(w.FS.Digest())
+							if c.res.Evaluations%40 == 1 {
+								c.sample(map[string]any{"legacy_from": opsString(hist), "index_file_size": ifs, "primary_file_size": pfs, "freelist": withFL, "cut_bytes": cut})
+							}
+						}()
+						func() {
+							defer func() { recover() }()
+							w.Close()
+						}()
+					}
+				}
+			}
+		}
+	}
+}
+
+// recoverC10: reopening an interrupted upgrade completes it with the same
+// result as the uninterrupted one.
+func recoverC10(sc *CrashScenario, img vos.Image, info crashInfo, c *Collector) (v *Violation) {
+	want := sc.Want
+	fw := &World{Cfg: sc.Cfg, FS: vos.FromImage(img), Model: map[string][]byte{}, GCInt: 1000 * 3600e9, Sync: 1000 * 3600e9, Keys: info.keys, Probes: info.probes}
+	setMapOrder(sc.Cfg)
+	defer func() {
+		if r := recover(); r != nil {
+			v = violO("crash", "panic", "panic resuming the upgrade: %v", r)
+			fw.opened = false
+		}
+		func() {
+			defer func() { recover() }()
+			fw.Close()
+		}()
+	}()
+	if err := fw.Open(); err != nil {
+		return violO("crash", "open-error", "reopening the interrupted upgrade: %v", err)
+	}
+	if mv := c10Check(fw, want); mv != nil {
+		mv.Oracle = "crash"
+		mv.Detail = "after resuming the interrupted upgrade: " + mv.Detail
+		return mv
+	}
+	for _, op := range []Op{P(2, 3), R(0), opF, {Kind: OpPriGC, A: 50}, {Kind: OpIdxGC, B: true}, {Kind: OpReads}, {Kind: OpReopen, A: 1}, {Kind: OpReads}} {
+		c.res.Transitions++
+		if mv := fw.Step(op); mv != nil {
+			mv.Oracle = "crash"
+			mv.Symptom = "post-recovery:" + mv.Symptom
+			mv.Detail = fmt.Sprintf("continuation after the resumed upgrade (%s): %s", op, mv.Detail)
+			return mv
+		}
+	}
+	return nil
+}
+
+func c10CrashScenarios(tier string) []*CrashScenario {
+	var scs []*CrashScenario
+	sizes := [][2]uint32{{40, 40}, {1, 1}, {bigFile, 64}}
+	if tier != "quick" {
+		sizes = append(sizes, [2]uint32{64, 1}, [2]uint32{bigFile, bigFile})
+	}
+	for hi, hist := range legacyHistories(tier)[:3] {
+		for _, sz := range sizes {
+			for _, cut := range []int{0, 3} {
+				if tier == "quick" && cut != 0 && hi != 1 {
+					continue
+				}
+				ls, err := buildLegacy(8, hist, cut, true)
+				if err != nil {
+					continue
+				}
+				sc := &CrashScenario{Prop: "C10", Name: fmt.Sprintf("c10x/h%d/%d-%d/cut%d", hi, sz[0], sz[1], cut), Cfg: cfg("mh", false, 8, sz[0], sz[1]),
+					Depth: 0, Recover: recoverC10, Oracles: []string{"crash"}, Base: &ls.img, Want: ls.model, BaseKeys: ls.keys, BaseProbes: ls.probe}
+				scs = append(scs, sc)
+			}
 		}
 	}
 	return scs
